@@ -207,21 +207,34 @@ Theorem C17_install_bad_package_keeps_files : forall (runnable : file -> bool) (
 Proof. exact install_bad_package. Qed.
 Print Assumptions C17_install_bad_package_keeps_files.
 
-(* The hypothesis [installed] of C17_reversible cannot be dropped (information: the property
-   speaks of "a version installed"): with one of the four files missing the newer file stays
-   after restore; with an agent executable that cannot be run restore panics after the stop. *)
+(* The hypothesis [installed] of C17_reversible cannot be dropped.  With one of the four files
+   missing (not "a version installed": information only) the newer file stays after restore;
+   with an agent executable that cannot be run restore panics after the stop (known finding). *)
 Theorem C17_reversible_needs_all_files :
   exists w, version_ok standin_runnable SysExe w = true /\ installed standin_runnable w = false /\
     fs_get SysEbpf (wfs (triple standin_runnable true w)) <> fs_get SysEbpf (wfs w).
 Proof. exact reversible_needs_all_files. Qed.
 Print Assumptions C17_reversible_needs_all_files.
 
-Theorem C17_reversible_needs_runnable :
-  exists w, forallb (fun l => fs_has l (wfs w)) sys_locs = true /\ installed standin_runnable w = false /\
+Theorem C17_reversible_refuted :
+  exists w, four_present w = true /\ KnownClass_C17_agent_not_runnable standin_runnable w = true /\
     fs_get SysExe (wfs (triple standin_runnable true w)) <> fs_get SysExe (wfs w) /\
     wrunning (triple standin_runnable true w) = false.
-Proof. exact reversible_needs_runnable. Qed.
-Print Assumptions C17_reversible_needs_runnable.
+Proof. exact reversible_refuted. Qed.
+Print Assumptions C17_reversible_refuted.
+
+(* KNOWN FINDING C17-K1.  The statement "from every world with the four files installed, backup;
+   install; restore reinstates them" is refuted just above (the installed agent executable does not
+   answer --version: restore panics after the stop).  Outside that class it holds -- this is
+   C17_reversible again with the class predicate as the hypothesis, so that any OTHER failure of
+   reversibility is still a violation. *)
+Theorem C17_reversible_outside_known_class : forall (runnable : file -> bool) (d : bool) (w : world),
+  four_present w = true -> KnownClass_C17_agent_not_runnable runnable w = false ->
+  let w' := exec runnable (Restore d) (exec runnable Install (exec runnable Backup w)) in
+  (forall l, In l sys_locs -> fs_get l (wfs w') = fs_get l (wfs w)) /\
+  wrunning w' = true /\ wenabled w' = true.
+Proof. exact reversible_outside_known_class. Qed.
+Print Assumptions C17_reversible_outside_known_class.
 
 (* the rendering of locations to path strings (from the regenerated constants) is injective on
    the twelve computed paths for the harness' setup directory, keeps system and package paths
